@@ -1,24 +1,99 @@
 /-
   Property C12 — dobs / pobs XML export and import are mutually inverse.
-  Property theorems only.
+  Property theorems only; the induction is in PV/Proofs/C12Lemmas.lean.
+
+  The model (PV/Model/Dobs.lean) is the per-replica table of the Zeuthen dobs format: the rows are the
+  merged configuration list of all observables of the file, each observable is one column, the number
+  written for a measured configuration is fluctuation + (replica mean − central value), and `0` marks
+  "this observable was not measured on this configuration".
 -/
-import PV.Model.Dobs
+import Mathlib.Data.List.Sort
+import Mathlib.Data.List.Perm.Subperm
+import PV.Proofs.C12Lemmas
+import PV.Proofs.C01bLemmas
 
 namespace PV
 open Scalar
 
-/-- C12 (known limitation of the format, as a theorem about the model): a measured configuration
-    whose written number is exactly 0 is dropped by the import, because 0 is the marker for
-    "not measured" — exact-arithmetic witness: chain (1,2,3) with written numbers (1/2, 0, -1/2) -/
+variable {α : Type} [Scalar α]
+
+/-- **C12 (what the import returns), all inputs.**  For every merged configuration list without
+    duplicates, every observable measured on a sub-list of it and every column of written numbers, the
+    import returns exactly the measured configurations whose written number is not the marker, each with
+    its number + central value: nothing is shifted to another configuration, nothing is invented. -/
+theorem c12_dobs_import_export (v : α) (hz : isZero (0 : α) = true) (merged idl : List Int) (nums : List α)
+    (hnd : merged.Nodup) (hs : idl.Sublist merged) (hl : nums.length = idl.length) :
+    dobsImport merged (dobsColumn merged idl nums) v
+      = ((idl.zip nums).filter (fun p => !isZero p.2)).map (fun p => (p.1, p.2 + v)) :=
+  dobs_import_export v hz merged idl nums hnd hs hl
+
+/-- **C12 (round trip, partial).**  If no written number is exactly 0, the observable comes back on exactly
+    its own configurations with every sample restored — for lists of observables on different
+    configuration subsets alike, since each column is read independently against the merged list.
+    The hypothesis excludes precisely the known finding `dobs-drops-sample-equal-to-central-value`. -/
+theorem c12_dobs_roundtrip_partial (v : α) (hz : isZero (0 : α) = true) (merged idl : List Int) (nums : List α)
+    (hnd : merged.Nodup) (hs : idl.Sublist merged) (hl : nums.length = idl.length)
+    (hnz : ∀ x ∈ nums, isZero x = false) :
+    dobsImport merged (dobsColumn merged idl nums) v = (idl.zip nums).map (fun p => (p.1, p.2 + v)) := by
+  rw [c12_dobs_import_export v hz merged idl nums hnd hs hl]
+  congr 1
+  apply List.filter_eq_self.mpr
+  intro p hp
+  have := hnz p.2 (List.of_mem_zip hp).2
+  simp [this]
+
+/-- **C12 (the known finding, in general).**  A measured configuration whose written number is exactly 0 is
+    never returned by the import, whatever the rest of the chain looks like. -/
+theorem c12_dobs_zero_dropped (v : α) (hz : isZero (0 : α) = true) (merged idl : List Int) (nums : List α)
+    (hnd : merged.Nodup) (hs : idl.Sublist merged) (hl : nums.length = idl.length)
+    (k : Nat) (hk : k < idl.length) (hzero : isZero (nums.getD k 0) = true) :
+    idl.getD k 0 ∉ (dobsImport merged (dobsColumn merged idl nums) v).map (·.1) := by
+  rw [c12_dobs_import_export v hz merged idl nums hnd hs hl]
+  have hidl : idl.Nodup := hs.nodup hnd
+  intro hmem
+  simp only [List.map_map, List.mem_map, List.mem_filter, Function.comp] at hmem
+  obtain ⟨p, ⟨hp, hnzp⟩, hpe⟩ := hmem
+  -- p is the k-th pair because configuration numbers are unique
+  obtain ⟨i, hi, hpi⟩ := List.getElem_of_mem hp
+  have hi1 : i < idl.length := by simp at hi; omega
+  have hi2 : i < nums.length := by simp at hi; omega
+  have hpi' : p = (idl[i], nums[i]) := by rw [← hpi]; simp
+  have hik : idl[i] = idl[k] := by
+    have : p.1 = idl.getD k 0 := hpe
+    rw [hpi'] at this
+    simpa [List.getD_eq_getElem?_getD, hk] using this
+  have : i = k := (List.Nodup.getElem_inj_iff hidl).mp hik
+  subst this
+  rw [hpi'] at hnzp
+  simp [List.getD_eq_getElem?_getD, hi2] at hzero
+  simp [hzero] at hnzp
+
+/-- the unconditional round-trip statement is false for the format: exact-arithmetic witness, chain (1,2,3)
+    with written numbers (1/2, 0, -1/2) -/
 theorem c12_zero_marker_drops :
     (dobsImport [1, 2, 3] (dobsColumn (α := Rat) [1, 2, 3] [1, 2, 3] [1 / 2, 0, -1 / 2]) 7).map (·.1) = [1, 3] := by
   decide +kernel
 
-/-- an observable measured on a subset of the merged configurations comes back on exactly that
-    subset when none of its written numbers is 0 -/
+/-- non-vacuity of the round trip: an observable measured on a subset of the merged configurations comes
+    back on exactly that subset -/
 theorem c12_subset_example :
     dobsImport [1, 2, 3, 4, 5] (dobsColumn (α := Rat) [1, 2, 3, 4, 5] [2, 5] [1 / 4, -1 / 4]) 10
       = [(2, 41 / 4), (5, 39 / 4)] := by
   decide +kernel
+
+/-- **C12 (lists of observables).**  The merged list written to the file is the sorted union of the
+    configuration lists of all observables; every strictly increasing configuration list that enters the
+    union is a sub-list of it, so the hypotheses of the theorems above hold for every member of the list. -/
+theorem c12_member_sublist_of_merged (idls : List (List Int)) (idl : List Int) (hmem : idl ∈ idls)
+    (hinc : idl.Pairwise (· < ·)) :
+    idl.Sublist (Py.sortedSet (idls.flatMap id)) ∧ (Py.sortedSet (idls.flatMap id)).Nodup := by
+  have hm : (Py.sortedSet (idls.flatMap id)).Pairwise (· < ·) := C01b.pairwise_sortedSet _
+  refine ⟨?_, hm.imp (fun h => ne_of_lt h)⟩
+  have hsub : idl ⊆ Py.sortedSet (idls.flatMap id) := by
+    intro x hx
+    rw [C01b.mem_sortedSet]
+    exact List.mem_flatMap.mpr ⟨idl, hmem, hx⟩
+  have hnd : idl.Nodup := hinc.imp (fun h => ne_of_lt h)
+  exact List.sublist_of_subperm_of_pairwise (hnd.subperm hsub) hinc hm
 
 end PV
